@@ -223,10 +223,15 @@ def parse_lines(text, T, listing=False):
             T.check(rid in T.r and T.r[rid][1]["name"] == m.group(1).strip())
             rfs.append("(RLRule %s)" % cN(rid))
             continue
-        m = re.search(r"^(?:log\d+)*\s*" + SCEN_RE.pattern, line)
+        m = re.search(r"^(?:log\d+)*(\s*)" + SCEN_RE.pattern, line)
         if m:
+            indent, m = len(m.group(1)), re.search(SCEN_RE.pattern, line)
             sid = idnum(m.group(1), "S")
             T.check(sid in T.s and T.s[sid][2]["name"] == m.group(1))
+            if not listing and sid in T.s:
+                # the nesting level is the only thing that says under what a scenario is listed: 4 columns under a
+                # `Rule:`, 2 directly under its feature
+                T.check(indent == (4 if T.s[sid][1] else 2))
             retry = "None" if not m.group(2) else "(Some (%s, %s))" % (cN(int(m.group(2))), cN(int(m.group(3))))
             rfs.append("(RLScenario %s %s)" % (cN(sid), retry))
     return rfs
